@@ -8,7 +8,11 @@ sed -i "$expr" "$file"
 if git diff --quiet -- "$file"; then echo "MUTANT DID NOT CHANGE FILE"; fi
 git diff --stat -- "$file" | tail -1
 cd /verif/harness
-CARGO_NET_OFFLINE=true cargo build --release 2>&1 | grep -E "^error" -A 8 | head -30
+if ! CARGO_NET_OFFLINE=true cargo build --release >/tmp/mutant_build.$$ 2>&1; then
+  grep -E "^error" -A 8 /tmp/mutant_build.$$ | head -30; echo "MUTANT DID NOT COMPILE - not run"
+  rm -f /tmp/mutant_build.$$; cd /repo; cp /tmp/mutant_backup.$$ "$file"; rm /tmp/mutant_backup.$$; exit 3
+fi
+rm -f /tmp/mutant_build.$$
 cd /verif
 "$@" 2>&1 | grep -E "VIOLATION|KNOWN|^\[|MACHINERY|->" | head -${LINES_MAX:-12}
 cd /repo; cp /tmp/mutant_backup.$$ "$file"; rm /tmp/mutant_backup.$$
